@@ -374,7 +374,16 @@ fn make_fixture(rng: &mut StdRng, len: usize) -> Fixture {
                 }
                 ("certificate-below-quorum", b.into())
             }
-            4 => ("pre-genesis-number-at-or-after-first-block", validator::PreGenesisBlock { number: f.number(), payload: f.payload.clone(), justification: validator::Justification(vec![1, 2, 3]) }.into()),
+            4 => {
+                // half of them exactly at the first block of the genesis (the boundary of the pre-genesis range); the execution layer of
+                // the harness vouches for all of them (see `Inner::pregenesis`), so the manager's own bound is the only guard
+                let f = if rng.gen_bool(0.5) { (*finals[0]).clone() } else { f.clone() };
+                let mut payload = f.payload.clone();
+                if rng.gen_bool(0.5) {
+                    payload.0.push(7);
+                }
+                ("pre-genesis-number-at-or-after-first-block", validator::PreGenesisBlock { number: f.number(), payload, justification: validator::Justification(vec![1, 2, 3]) }.into())
+            }
             _ => {
                 // wrong content for a genuine pre-genesis number
                 match chain.iter().find_map(|b| if let validator::Block::PreGenesis(p) = b { Some(p.clone()) } else { None }) {
@@ -483,7 +492,9 @@ fn run_case(rep: &mut Report, args: &Args, case: u64, multi: bool) {
         genesis: fx.genesis.clone(),
         persisted: sync::watch::channel(BlockStoreState { first: first_stored, last: None }).0,
         blocks: Mutex::default(),
-        pregenesis: fx.chain.iter().filter_map(|b| if let validator::Block::PreGenesis(p) = b { Some((p.number.0, p.clone())) } else { None }).collect(),
+        // what the execution layer vouches for: the genuine pre-genesis blocks and, on purpose, externally justified blocks at / after
+        // the first block of the genesis (EngineInterface::verify_pregenesis_block is not required to know the genesis bound)
+        pregenesis: fx.chain.iter().chain(fx.invalid.iter().filter(|o| o.class == "pre-genesis-number-at-or-after-first-block").map(|o| &o.block)).filter_map(|b| if let validator::Block::PreGenesis(p) = b { Some((p.number.0, p.clone())) } else { None }).collect(),
         calls: Mutex::default(),
         head_hist: Mutex::new(vec![first_stored.0]),
         inc_start: Mutex::default(),
